@@ -1,6 +1,1061 @@
-//! C12 — not implemented yet.
-use mc_core::Ctx;
+//! C12 — the transaction state cache reads back its own writes.
+//!
+//! Statement: during a transaction every substate read returns what the database holds overlaid with the
+//! transaction's own node creations, writes and removals; a limited key scan or drain returns as many distinct
+//! present entries as the limit allows (a drain also removes exactly those); a limited sorted scan returns the
+//! first present entries in database key order. The state changes produced at the end are exactly the overlaid
+//! differences, and reverting a failed transaction keeps only the force-written substates.
+//!
+//! Shape H: every history (up to a depth) of state-changing `Track` operations over a small colliding key
+//! space on four base databases is executed on the real `Track<InMemorySubstateDatabase>` and on a reference
+//! overlay (plain maps). After every transition three throw-away copies of the real object (the object is not
+//! `Clone`; a copy is a replay of the history) are put through
+//!   A. `finalize` + `to_state_updates`           — updates applied to the base must equal the overlay and
+//!                                                   touch only written substates;
+//!   B. `revert_non_force_write_changes`, a read sweep, `finalize` — only force-written substates survive;
+//!   C. an observer sweep                          — `scan_keys` / `scan_sorted` with every limit, `get` of every
+//!                                                   key, the scans again on the now fully cached partitions, a
+//!                                                   `drain`, and the reads once more.
+//! So every *reachable state* gets every read/scan/terminal observation, while the explored alphabet only
+//! contains operations that change the cache. See `DEVIATIONS` at the bottom for the differences from DESIGN.md.
+use crate::explore::bfs_chunked;
+use mc_core::{BfsStats, Ctx, Level, Machine};
+use radix_common::prelude::*;
+use radix_engine::track::interface::{CommitableSubstateStore, IOAccess, NodeSubstates, TrackedSubstateInfo};
+use radix_engine::track::{ReadOnly, Track, TrackedSubstateValue, TrackedSubstates, Write};
+use radix_engine_interface::types::IndexedScryptoValue;
+use radix_substate_store_impls::memory_db::InMemorySubstateDatabase;
+use radix_substate_store_interface::db_key_mapper::{DatabaseKeyMapper, SpreadPrefixKeyMapper};
+use radix_substate_store_interface::interface::*;
+use serde_json::json;
+use std::collections::{BTreeMap, BTreeSet};
+use std::sync::atomic::{AtomicU64, Ordering};
+use std::sync::{Mutex, OnceLock};
 
-pub fn run(_ctx: Ctx) -> ! {
-    mc_core::machinery_error("C12: not implemented")
+type Db = InMemorySubstateDatabase;
+type Tr = Track<'static, Db>;
+type V = (String, String);
+
+fn v(key: impl Into<String>, what: String) -> V {
+    (key.into(), what)
+}
+
+// ------------------------------------------------------------------------------------------------
+// key space
+// ------------------------------------------------------------------------------------------------
+
+/// (node 0..2, partition 0 = map / 1 = sorted, key 0..3)
+type Key = (u8, u8, u8);
+const MAP: u8 = 0;
+const SORTED: u8 = 1;
+const BASE_VAL: u8 = 9;
+
+fn node_id(n: u8) -> NodeId {
+    let mut raw = [0x11u8; NodeId::LENGTH];
+    raw[0] = EntityType::GlobalGenericComponent as u8;
+    raw[NodeId::LENGTH - 1] = n;
+    NodeId(raw)
+}
+
+fn part_num(p: u8) -> PartitionNumber {
+    PartitionNumber(if p == MAP { 65 } else { 66 })
+}
+
+fn skey(p: u8, k: u8) -> SubstateKey {
+    if p == MAP {
+        SubstateKey::Map(vec![k + 1])
+    } else {
+        // (0,a) (1,b) (1,c): two entries share a prefix so that the order inside a prefix is the mapper's
+        SubstateKey::Sorted(([0, if k == 0 { 0 } else { 1 }], vec![0x0a + k]))
+    }
+}
+
+fn unkey(p: u8, k: &SubstateKey) -> u8 {
+    (0..3).find(|i| &skey(p, *i) == k).unwrap_or(255)
+}
+
+fn val(x: u8) -> IndexedScryptoValue {
+    IndexedScryptoValue::from_typed(&x)
+}
+
+fn unval(v: &IndexedScryptoValue) -> u8 {
+    v.as_typed::<u8>().unwrap_or(255)
+}
+
+/// keys of a partition in *database* order (the order the statement prescribes for sorted scans), computed
+/// with the real key mapper (its order properties are C16's subject, not this check's)
+fn db_order(p: u8) -> [u8; 3] {
+    let mut ks: Vec<(Vec<u8>, u8)> = (0..3).map(|k| (SpreadPrefixKeyMapper::to_db_sort_key(&skey(p, k)).0, k)).collect();
+    ks.sort();
+    [ks[0].1, ks[1].1, ks[2].1]
+}
+
+pub struct Base {
+    pub name: &'static str,
+    pub db: Db,
+    pub content: BTreeMap<Key, u8>,
+}
+
+impl Base {
+    fn has_node(&self, n: u8) -> bool {
+        self.content.keys().any(|k| k.0 == n)
+    }
+}
+
+fn bases() -> &'static Vec<Base> {
+    static B: OnceLock<Vec<Base>> = OnceLock::new();
+    B.get_or_init(|| {
+        let mk = |name: &'static str, keys: &[Key]| {
+            let mut db = InMemorySubstateDatabase::standard();
+            let mut content = BTreeMap::new();
+            for k in keys {
+                db.update_substate_raw(node_id(k.0), part_num(k.1), &skey(k.1, k.2), val(BASE_VAL).as_slice().to_vec());
+                content.insert(*k, BASE_VAL);
+            }
+            Base { name, db, content }
+        };
+        let b1 = vec![(0, MAP, 0), (0, MAP, 2)];
+        let mut b2 = b1.clone();
+        b2.extend([(0, SORTED, 0), (0, SORTED, 1), (0, SORTED, 2)]);
+        let mut b3 = b2.clone();
+        b3.extend([(1, MAP, 1), (1, SORTED, 1)]);
+        vec![mk("B0-empty", &[]), mk("B1-map{k1,k3}", &b1), mk("B2-map{k1,k3}+sorted{s1,s2,s3}", &b2), mk("B3-B2+node2{map k2, sorted s2}", &b3)]
+    })
+}
+
+// ------------------------------------------------------------------------------------------------
+// operations
+// ------------------------------------------------------------------------------------------------
+
+#[derive(Clone, Copy, Debug, PartialEq, Eq, PartialOrd, Ord, Hash)]
+pub enum Kind {
+    /// create node `n` with the substates of variant `var` (see `create_variant`)
+    Create { n: u8, var: u8 },
+    Get(Key),
+    Set(Key, u8),
+    Remove(Key),
+    ScanKeys { n: u8, p: u8, limit: u8 },
+    Drain { n: u8, p: u8, limit: u8 },
+    ScanSorted { n: u8, limit: u8 },
+    /// what `close_substate` does for a FORCE_WRITE handle; only on substates that are in the cache
+    ForceWrite(Key),
+    Revert,
+}
+
+#[derive(Clone, Copy, Debug, PartialEq, Eq, PartialOrd, Ord, Hash)]
+pub struct Op {
+    pub kind: Kind,
+    /// 0 = the IO-access callback always succeeds; k>0 = it reports an error at its k-th invocation
+    pub fail_at: u8,
+}
+
+fn kind_name(k: &Kind) -> &'static str {
+    match k {
+        Kind::Create { .. } => "create_node",
+        Kind::Get(_) => "get",
+        Kind::Set(..) => "set",
+        Kind::Remove(_) => "remove",
+        Kind::ScanKeys { .. } => "scan_keys",
+        Kind::Drain { .. } => "drain",
+        Kind::ScanSorted { .. } => "scan_sorted",
+        Kind::ForceWrite(_) => "force_write",
+        Kind::Revert => "revert",
+    }
+}
+
+fn create_variant(focus: &[(u8, u8)], n: u8, var: u8) -> Vec<(Key, u8)> {
+    // substates of the focused partitions of node n; var 0: none, 1: first key of each, 2: first two keys of each
+    let mut out = vec![];
+    for (fnode, p) in focus {
+        if *fnode == n {
+            for k in 0..var.min(2) {
+                out.push(((n, *p, k), 1));
+            }
+        }
+    }
+    out
+}
+
+/// What the real object returned.
+#[derive(Clone, Debug, PartialEq, Eq)]
+pub enum Obs {
+    Unit,
+    Value(Option<u8>),
+    Keys(Vec<u8>),
+    Entries(Vec<(u8, u8)>),
+    /// the callback reported its error and the call returned it
+    Failed,
+    Panicked(String),
+}
+
+fn apply_real(track: &mut Tr, focus: &[(u8, u8)], op: &Op) -> Obs {
+    let mut calls = 0u8;
+    let fail_at = op.fail_at;
+    let mut cb = |_io: IOAccess| -> Result<(), ()> {
+        calls = calls.saturating_add(1);
+        if fail_at != 0 && calls == fail_at {
+            Err(())
+        } else {
+            Ok(())
+        }
+    };
+    let r = mc_core::catch(|| -> Result<Obs, ()> {
+        Ok(match op.kind {
+            Kind::Create { n, var } => {
+                let mut subs: NodeSubstates = BTreeMap::new();
+                for ((_, p, k), x) in create_variant(focus, n, var) {
+                    subs.entry(part_num(p)).or_default().insert(skey(p, k), val(x));
+                }
+                track.create_node(node_id(n), subs, &mut cb)?;
+                Obs::Unit
+            }
+            Kind::Get((n, p, k)) => Obs::Value(track.get_substate(&node_id(n), part_num(p), &skey(p, k), &mut cb)?.map(unval)),
+            Kind::Set((n, p, k), x) => {
+                track.set_substate(node_id(n), part_num(p), skey(p, k), val(x), &mut cb)?;
+                Obs::Unit
+            }
+            Kind::Remove((n, p, k)) => Obs::Value(track.remove_substate(&node_id(n), part_num(p), &skey(p, k), &mut cb)?.as_ref().map(unval)),
+            Kind::ScanKeys { n, p, limit } => {
+                let ks = if p == MAP {
+                    track.scan_keys::<MapKey, (), _>(&node_id(n), part_num(p), limit as u32, &mut cb)?
+                } else {
+                    track.scan_keys::<SortedKey, (), _>(&node_id(n), part_num(p), limit as u32, &mut cb)?
+                };
+                Obs::Keys(ks.iter().map(|k| unkey(p, k)).collect())
+            }
+            Kind::Drain { n, p, limit } => {
+                let es = if p == MAP {
+                    track.drain_substates::<MapKey, (), _>(&node_id(n), part_num(p), limit as u32, &mut cb)?
+                } else {
+                    track.drain_substates::<SortedKey, (), _>(&node_id(n), part_num(p), limit as u32, &mut cb)?
+                };
+                Obs::Entries(es.iter().map(|(k, x)| (unkey(p, k), unval(x))).collect())
+            }
+            Kind::ScanSorted { n, limit } => {
+                let es = track.scan_sorted_substates(&node_id(n), part_num(SORTED), limit as u32, &mut cb)?;
+                Obs::Entries(es.iter().map(|(k, x)| (unkey(SORTED, &SubstateKey::Sorted(k.clone())), unval(x))).collect())
+            }
+            Kind::ForceWrite((n, p, k)) => {
+                track.force_write(&node_id(n), &part_num(p), &skey(p, k));
+                Obs::Unit
+            }
+            Kind::Revert => {
+                track.revert_non_force_write_changes();
+                Obs::Unit
+            }
+        })
+    });
+    match r {
+        Ok(Ok(o)) => o,
+        Ok(Err(())) => Obs::Failed,
+        Err(p) => Obs::Panicked(format!("{p} @{}", mc_core::last_panic_location())),
+    }
+}
+
+// ------------------------------------------------------------------------------------------------
+// reference model (plain maps; written from the statement)
+// ------------------------------------------------------------------------------------------------
+
+#[derive(Clone)]
+pub struct Model {
+    base: &'static Base,
+    /// the transaction's own writes: Some(v) = written, None = removed
+    overlay: BTreeMap<Key, Option<u8>>,
+    /// nodes created by this transaction (and not reverted)
+    created: BTreeSet<u8>,
+    /// substates a write-type operation (create / set / remove / drain) of this transaction was applied to
+    written: BTreeSet<Key>,
+    /// substates that an operation put into the cache (needed by the precondition of force_write)
+    cached: BTreeSet<Key>,
+    /// force-written substates: value they had at force_write time, and whether they had been written by then
+    fw: BTreeMap<Key, (Option<u8>, bool)>,
+    reverted: bool,
+    /// a call returned the callback's error; the only continuation the engine has is the revert
+    failed: bool,
+    /// a continuation after a revert disagreed with the overlay (informational); not explored further
+    diverged: bool,
+}
+
+impl Model {
+    fn new(base: &'static Base) -> Self {
+        Model { base, overlay: BTreeMap::new(), created: BTreeSet::new(), written: BTreeSet::new(), cached: BTreeSet::new(), fw: BTreeMap::new(), reverted: false, failed: false, diverged: false }
+    }
+    fn current(&self, k: &Key) -> Option<u8> {
+        match self.overlay.get(k) {
+            Some(x) => *x,
+            None => self.base.content.get(k).copied(),
+        }
+    }
+    fn node_exists(&self, n: u8) -> bool {
+        self.base.has_node(n) || self.created.contains(&n)
+    }
+    fn present(&self, n: u8, p: u8) -> Vec<u8> {
+        (0..3).filter(|k| self.current(&(n, p, *k)).is_some()).collect()
+    }
+    /// the model after `revert_non_force_write_changes`: base ⊕ force-written substates only
+    fn reverted(&self) -> Model {
+        let mut m = Model::new(self.base);
+        for (k, (x, was_written)) in &self.fw {
+            if *was_written {
+                m.overlay.insert(*k, *x);
+                m.written.insert(*k);
+            }
+        }
+        m.cached = self.cached.iter().filter(|k| self.base.has_node(k.0)).copied().collect();
+        m.reverted = true;
+        m
+    }
+    fn write(&mut self, k: Key, x: Option<u8>) {
+        self.overlay.insert(k, x);
+        self.written.insert(k);
+        self.cached.insert(k);
+    }
+
+    // ---- oracles for the observers (used by `step` and by the sweeps)
+
+    fn check_get(&self, k: &Key, got: &Obs, ctx: &str) -> Result<(), V> {
+        let want = self.current(k);
+        if *got != Obs::Value(want) {
+            return Err(v(format!("{ctx}get"), format!("get{k:?} returned {got:?}, the database overlaid with the transaction's writes holds {want:?}")));
+        }
+        Ok(())
+    }
+    fn check_scan_keys(&self, n: u8, p: u8, limit: u8, got: &Obs, ctx: &str) -> Result<(), V> {
+        let Obs::Keys(ks) = got else { return Err(v(format!("{ctx}scan_keys:result"), format!("scan_keys({n},{p},{limit}) gave {got:?}"))) };
+        let present = self.present(n, p);
+        let distinct: BTreeSet<u8> = ks.iter().copied().collect();
+        if distinct.len() != ks.len() {
+            return Err(v(format!("{ctx}scan_keys:duplicate"), format!("scan_keys({n},{p},{limit}) returned {ks:?}")));
+        }
+        if let Some(bad) = ks.iter().find(|k| !present.contains(k)) {
+            return Err(v(format!("{ctx}scan_keys:absent-key"), format!("scan_keys({n},{p},{limit}) returned {ks:?}; key {bad} is not present (present: {present:?})")));
+        }
+        let want = present.len().min(limit as usize);
+        if ks.len() != want {
+            return Err(v(format!("{ctx}scan_keys:count"), format!("scan_keys({n},{p},{limit}) returned {} keys {ks:?}; present {present:?}, so {want} expected", ks.len())));
+        }
+        Ok(())
+    }
+    fn check_scan_sorted(&self, n: u8, limit: u8, got: &Obs, ctx: &str) -> Result<(), V> {
+        let Obs::Entries(es) = got else { return Err(v(format!("{ctx}scan_sorted:result"), format!("scan_sorted({n},{limit}) gave {got:?}"))) };
+        let want: Vec<(u8, u8)> = db_order(SORTED).iter().filter_map(|k| self.current(&(n, SORTED, *k)).map(|x| (*k, x))).take(limit as usize).collect();
+        if *es != want {
+            return Err(v(format!("{ctx}scan_sorted"), format!("scan_sorted({n},{limit}) returned {es:?}; the first present entries in database key order are {want:?}")));
+        }
+        Ok(())
+    }
+    /// checks the result of a drain and applies it
+    fn check_apply_drain(&mut self, n: u8, p: u8, limit: u8, got: &Obs, ctx: &str) -> Result<usize, V> {
+        let Obs::Entries(es) = got else { return Err(v(format!("{ctx}drain:result"), format!("drain({n},{p},{limit}) gave {got:?}"))) };
+        let present = self.present(n, p);
+        let distinct: BTreeSet<u8> = es.iter().map(|e| e.0).collect();
+        if distinct.len() != es.len() {
+            return Err(v(format!("{ctx}drain:duplicate"), format!("drain({n},{p},{limit}) returned {es:?}")));
+        }
+        for (k, x) in es {
+            let cur = self.current(&(n, p, *k));
+            if cur != Some(*x) {
+                return Err(v(format!("{ctx}drain:entry"), format!("drain({n},{p},{limit}) returned ({k},{x}); the current value of that key is {cur:?}")));
+            }
+        }
+        let want = present.len().min(limit as usize);
+        if es.len() != want {
+            return Err(v(format!("{ctx}drain:count"), format!("drain({n},{p},{limit}) returned {} entries {es:?}; present {present:?}, so {want} expected", es.len())));
+        }
+        for (k, _) in es {
+            self.write((n, p, *k), None);
+        }
+        Ok(es.len())
+    }
+}
+
+// ------------------------------------------------------------------------------------------------
+// the machine
+// ------------------------------------------------------------------------------------------------
+
+pub struct St {
+    track: Tr,
+    model: Model,
+    hist: Vec<Op>,
+}
+
+/// Violations found by the look-ahead copies are collected here (and not returned from `step`), so that a state
+/// whose *revert* or *finalize* misbehaves is still expanded. Per key the smallest case is kept.
+#[derive(Default)]
+pub struct Side {
+    violations: Mutex<BTreeMap<String, (usize, String, String, Vec<String>)>>,
+    counters: Mutex<BTreeMap<String, u64>>,
+    info: Mutex<BTreeMap<String, u64>>,
+    sweeps: AtomicU64,
+    /// smallest history whose continuation after a revert disagrees with the overlay (informational)
+    post_revert_example: Mutex<Option<(usize, String, String)>>,
+}
+
+impl Side {
+    fn violation(&self, key: String, what: String, hist: &[Op], tail: &str) {
+        let mut h: Vec<String> = hist.iter().map(|o| format!("{o:?}")).collect();
+        h.push(tail.to_string());
+        let cand = (h.len(), format!("{h:?}"), what, h);
+        let mut g = self.violations.lock().unwrap();
+        match g.get(&key) {
+            Some(old) if (old.0, &old.1) <= (cand.0, &cand.1) => {}
+            _ => {
+                g.insert(key, cand);
+            }
+        }
+    }
+    fn count(&self, label: &str) {
+        *self.counters.lock().unwrap().entry(label.to_string()).or_insert(0) += 1;
+    }
+    fn info(&self, label: &str) {
+        *self.info.lock().unwrap().entry(label.to_string()).or_insert(0) += 1;
+    }
+}
+
+pub struct TrackMachine {
+    pub base: &'static Base,
+    /// the (node, partition) pairs the alphabet ranges over
+    pub focus: Vec<(u8, u8)>,
+    /// include the callback-error environment
+    pub failing: bool,
+    pub side: Side,
+}
+
+fn canonical(ts: &TrackedSubstates) -> Vec<u8> {
+    // sorted nodes → is_new → sorted partitions → substates in db-key order → variant + values.
+    // Dropped: `range_read` (only feeds the fee for range reads; no Track operation reads it), the insertion
+    // order of the IndexMaps (never observed by the oracle: observations are maps/sets), empty partitions and
+    // empty not-new nodes (every Track operation treats a missing and an empty tracked partition alike).
+    let mut out = vec![];
+    let mut nodes: Vec<_> = ts.tracked_nodes.iter().collect();
+    nodes.sort_by_key(|(id, _)| **id);
+    for (id, node) in nodes {
+        let mut parts: Vec<_> = node.tracked_partitions.iter().filter(|(_, p)| !p.substates.is_empty()).collect();
+        if parts.is_empty() && !node.is_new {
+            continue;
+        }
+        parts.sort_by_key(|(n, _)| **n);
+        out.push(0xA0);
+        out.push(id.0[NodeId::LENGTH - 1]);
+        out.push(node.is_new as u8);
+        for (pn, part) in parts {
+            out.push(0xA1);
+            out.push(pn.0);
+            for (dbk, ts) in &part.substates {
+                out.push(0xA2);
+                out.extend_from_slice(&dbk.0);
+                let b = |x: &IndexedScryptoValue| unval(x);
+                match &ts.substate_value {
+                    TrackedSubstateValue::New(s) => out.extend([1, b(&s.value)]),
+                    TrackedSubstateValue::ReadOnly(ReadOnly::NonExistent) => out.extend([2]),
+                    TrackedSubstateValue::ReadOnly(ReadOnly::Existent(s)) => out.extend([3, b(&s.value)]),
+                    TrackedSubstateValue::ReadExistAndWrite(o, Write::Update(s)) => out.extend([4, b(o), b(&s.value)]),
+                    TrackedSubstateValue::ReadExistAndWrite(o, Write::Delete) => out.extend([5, b(o)]),
+                    TrackedSubstateValue::ReadNonExistAndWrite(s) => out.extend([6, b(&s.value)]),
+                    TrackedSubstateValue::WriteOnly(Write::Update(s)) => out.extend([7, b(&s.value)]),
+                    TrackedSubstateValue::WriteOnly(Write::Delete) => out.extend([8]),
+                    TrackedSubstateValue::Garbage => out.extend([9]),
+                }
+            }
+        }
+    }
+    for (n, p) in &ts.deleted_partitions {
+        out.extend([0xA3, n.0[NodeId::LENGTH - 1], p.0]);
+    }
+    out
+}
+
+/// Independent interpretation of `StateUpdates`: apply to a copy of the base content.
+fn apply_updates(base: &Base, upd: &StateUpdates) -> Result<(BTreeMap<Key, u8>, BTreeSet<Key>), String> {
+    let mut content = base.content.clone();
+    let mut touched = BTreeSet::new();
+    for (node, nu) in &upd.by_node {
+        let n = (0..3u8).find(|n| node_id(*n) == *node).ok_or_else(|| format!("update for unknown node {node:?}"))?;
+        let NodeStateUpdates::Delta { by_partition } = nu;
+        for (pn, pu) in by_partition {
+            let p = [MAP, SORTED].into_iter().find(|p| part_num(*p) == *pn).ok_or_else(|| format!("update for unknown partition {pn:?}"))?;
+            match pu {
+                PartitionStateUpdates::Delta { by_substate } => {
+                    for (sk, u) in by_substate {
+                        let k = unkey(p, sk);
+                        if k == 255 {
+                            return Err(format!("update for unknown key {sk:?}"));
+                        }
+                        touched.insert((n, p, k));
+                        match u {
+                            DatabaseUpdate::Set(bytes) => {
+                                let x = IndexedScryptoValue::from_slice(bytes).map(|x| unval(&x)).unwrap_or(255);
+                                content.insert((n, p, k), x);
+                            }
+                            DatabaseUpdate::Delete => {
+                                content.remove(&(n, p, k));
+                            }
+                        }
+                    }
+                }
+                PartitionStateUpdates::Batch(b) => return Err(format!("unexpected batch update {b:?} (no partition was deleted)")),
+            }
+        }
+    }
+    Ok((content, touched))
+}
+
+impl TrackMachine {
+    fn replay_real(&self, hist: &[Op]) -> Tr {
+        let mut t = Track::new(&self.base.db);
+        for op in hist {
+            let _ = apply_real(&mut t, &self.focus, op);
+        }
+        t
+    }
+
+    /// finalize + to_state_updates of `track` against `model`
+    fn check_finalize(&self, track: Tr, model: &Model, ctx: &str) -> Result<Vec<u8>, V> {
+        let (ts, _db) = match mc_core::catch(|| track.finalize()) {
+            Ok(Ok(x)) => x,
+            Ok(Err(e)) => return Err(v(format!("{ctx}finalize:error"), format!("finalize returned {e:?}"))),
+            Err(p) => return Err(v(format!("{ctx}finalize:panic"), format!("finalize panicked: {p}"))),
+        };
+        let canon = canonical(&ts);
+        let (new_nodes, upd) = mc_core::catch(|| ts.to_state_updates()).map_err(|p| v(format!("{ctx}to_state_updates:panic"), p))?;
+        let (after, touched) = apply_updates(self.base, &upd).map_err(|e| v(format!("{ctx}state-updates:shape"), e))?;
+        let mut want = BTreeMap::new();
+        for n in 0..2u8 {
+            for p in [MAP, SORTED] {
+                for k in 0..3u8 {
+                    if let Some(x) = model.current(&(n, p, k)) {
+                        want.insert((n, p, k), x);
+                    }
+                }
+            }
+        }
+        if after != want {
+            return Err(v(
+                format!("{ctx}state-updates:content"),
+                format!("base ⊕ state updates = {after:?}, but base ⊕ the transaction's writes = {want:?} (updates: {upd:?})"),
+            ));
+        }
+        if let Some(k) = touched.iter().find(|k| !model.written.contains(k)) {
+            return Err(v(
+                format!("{ctx}state-updates:untouched-substate"),
+                format!("state updates contain an entry for {k:?}, which this transaction never wrote (written: {:?}; updates: {upd:?})", model.written),
+            ));
+        }
+        let got_new: BTreeSet<u8> = new_nodes.iter().map(|id| id.0[NodeId::LENGTH - 1]).collect();
+        if got_new != model.created {
+            self.side.info(&format!("{ctx}new-node-set-differs-from-created-nodes"));
+        }
+        Ok(canon)
+    }
+
+    /// observer sweep on a throw-away copy
+    fn sweep(&self, track: &mut Tr, model: &mut Model, ctx: &str, with_drain: bool) -> Result<(), V> {
+        let f = &self.focus;
+        let parts: Vec<(u8, u8)> = [(0, MAP), (0, SORTED), (1, MAP), (1, SORTED)].into_iter().filter(|(n, _)| model.node_exists(*n)).collect();
+        let scans = |track: &mut Tr, model: &Model, tag: &str| -> Result<(), V> {
+            for (n, p) in &parts {
+                for limit in 0..=4u8 {
+                    let o = apply_real(track, f, &Op { kind: Kind::ScanKeys { n: *n, p: *p, limit }, fail_at: 0 });
+                    model.check_scan_keys(*n, *p, limit, &o, &format!("{ctx}{tag}"))?;
+                    if *p == SORTED {
+                        let o = apply_real(track, f, &Op { kind: Kind::ScanSorted { n: *n, limit }, fail_at: 0 });
+                        model.check_scan_sorted(*n, limit, &o, &format!("{ctx}{tag}"))?;
+                    }
+                }
+            }
+            Ok(())
+        };
+        // substate info is not part of the statement: informational only
+        for (n, p) in &parts {
+            for k in 0..3u8 {
+                let key = (*n, *p, k);
+                let info = track.get_tracked_substate_info(&node_id(*n), part_num(*p), &skey(*p, k));
+                let unmodified = matches!(info, TrackedSubstateInfo::Unmodified);
+                if unmodified && model.current(&key) != model.base.content.get(&key).copied() {
+                    self.side.info(&format!("{ctx}substate-info:Unmodified-although-value-differs-from-base"));
+                } else if !unmodified && !model.written.contains(&key) && !model.created.contains(n) {
+                    self.side.info(&format!("{ctx}substate-info:modified-although-never-written"));
+                }
+            }
+        }
+        scans(track, model, "uncached:")?;
+        let gets = |track: &mut Tr, model: &Model, tag: &str| -> Result<(), V> {
+            for (n, p) in &parts {
+                for k in 0..3u8 {
+                    let o = apply_real(track, f, &Op { kind: Kind::Get((*n, *p, k)), fail_at: 0 });
+                    model.check_get(&(*n, *p, k), &o, &format!("{ctx}{tag}"))?;
+                }
+            }
+            Ok(())
+        };
+        gets(track, model, "")?;
+        scans(track, model, "cached:")?;
+        if with_drain {
+            for (n, p) in &parts {
+                let o = apply_real(track, f, &Op { kind: Kind::Drain { n: *n, p: *p, limit: 2 }, fail_at: 0 });
+                model.check_apply_drain(*n, *p, 2, &o, &format!("{ctx}sweep-"))?;
+            }
+            gets(track, model, "after-drain:")?;
+            scans(track, model, "after-drain:")?;
+        }
+        Ok(())
+    }
+
+    /// A mismatch seen in a state that lies after a revert. The statement quantifies over sequences of
+    /// creations, reads, writes, removals, scans and drains and mentions the revert only as the end of a failed
+    /// transaction, so what the cache answers *after* a revert is outside of it: recorded as informational (with the
+    /// smallest reproducer), never as a violation.
+    fn post_revert(&self, key: &str, what: String, hist: &[Op], tail: &str) {
+        self.side.info(&format!("post-revert (outside the statement): {key}"));
+        let mut h: Vec<String> = hist.iter().map(|o| format!("{o:?}")).collect();
+        if !tail.is_empty() {
+            h.push(tail.to_string());
+        }
+        let cand = (h.len(), format!("{h:?}"), format!("{key}: {what}"));
+        let mut g = self.side.post_revert_example.lock().unwrap();
+        match &*g {
+            Some(old) if (old.0, &old.1) <= (cand.0, &cand.1) => {}
+            _ => *g = Some(cand),
+        }
+    }
+
+    /// The look-ahead copies. Returns the fingerprint part (canonical forms of the finalised copy and of the
+    /// reverted-and-finalised copy).
+    fn probes(&self, hist: &[Op], model: &Model) -> Vec<u8> {
+        let mut fp = vec![];
+        if model.diverged {
+            return fp;
+        }
+        self.side.sweeps.fetch_add(1, Ordering::Relaxed);
+        // A: finalize now (undefined after a failed call: the engine reverts first)
+        if !model.failed {
+            match self.check_finalize(self.replay_real(hist), model, "finalize:") {
+                Ok(c) => {
+                    fp.extend(c);
+                    self.side.count(if model.reverted { "post-revert continuation; finalize: state updates == overlaid differences" } else { "finalize: state updates == overlaid differences" });
+                }
+                Err((k, w)) if model.reverted => self.post_revert(&k, w, hist, "<finalize; to_state_updates>"),
+                Err((k, w)) => self.side.violation(k, w, hist, "<finalize; to_state_updates>"),
+            }
+        }
+        fp.push(0xB0);
+        if !model.reverted {
+            // B1: revert, finalize — "reverting a failed transaction keeps only the force-written substates"
+            let mut t = self.replay_real(hist);
+            let m = model.reverted();
+            let r = match apply_real(&mut t, &self.focus, &Op { kind: Kind::Revert, fail_at: 0 }) {
+                Obs::Unit => self.check_finalize(t, &m, "after-revert:"),
+                o => Err(v("revert:result", format!("revert_non_force_write_changes gave {o:?}"))),
+            };
+            match r {
+                Ok(c) => {
+                    fp.extend(c);
+                    self.side.count(if model.failed { "failed call; revert; finalize: only force-written substates survive" } else { "revert; finalize: only force-written substates survive" });
+                }
+                Err((k, w)) => self.side.violation(k, w, hist, "<revert; finalize; to_state_updates>"),
+            }
+            // B2: revert, read sweep (informational, see `post_revert`)
+            let mut t = self.replay_real(hist);
+            let mut m = model.reverted();
+            let _ = apply_real(&mut t, &self.focus, &Op { kind: Kind::Revert, fail_at: 0 });
+            match self.sweep(&mut t, &mut m, "reads-after-revert:", false) {
+                Ok(()) => self.side.count("revert; read sweep agrees with base + force-written substates"),
+                Err((k, w)) => self.post_revert(&k, w, hist, "<revert; scan sweep; get sweep; scan sweep>"),
+            }
+        }
+        fp.push(0xB1);
+        // C: observer sweep
+        if !model.failed {
+            let mut t = self.replay_real(hist);
+            let mut m = model.clone();
+            let tail = "<scan sweep; get sweep; scan sweep; drain 2; get sweep; scan sweep; finalize>";
+            match self.sweep(&mut t, &mut m, "sweep:", true).and_then(|()| self.check_finalize(t, &m, "sweep:")) {
+                Ok(_) => self.side.count(if model.reverted { "post-revert continuation; observer sweep agrees with the overlay" } else { "observer sweep agrees with the overlay" }),
+                Err((k, w)) if model.reverted => self.post_revert(&k, w, hist, tail),
+                Err((k, w)) => self.side.violation(k, w, hist, tail),
+            }
+        }
+        fp
+    }
+
+    fn model_fp(m: &Model) -> Vec<u8> {
+        let mut out = vec![0xC0];
+        for (k, x) in &m.overlay {
+            out.extend([k.0, k.1, k.2, x.map_or(0xEE, |x| x)]);
+        }
+        out.push(0xC1);
+        for n in &m.created {
+            out.push(*n);
+        }
+        out.push(0xC2);
+        for k in &m.written {
+            out.extend([k.0, k.1, k.2]);
+        }
+        out.push(0xC3);
+        for k in &m.cached {
+            out.extend([k.0, k.1, k.2]);
+        }
+        out.push(0xC4);
+        for (k, (x, w)) in &m.fw {
+            out.extend([k.0, k.1, k.2, x.map_or(0xEE, |x| x), *w as u8]);
+        }
+        out.extend([0xC5, m.reverted as u8, m.failed as u8, m.diverged as u8]);
+        out
+    }
+}
+
+impl TrackMachine {
+    fn step_inner(&self, st: &mut St, op: &Op) -> Result<String, V> {
+        let obs = apply_real(&mut st.track, &self.focus, op);
+        st.hist.push(*op);
+        let m = &mut st.model;
+        let class: String = match (&obs, op.fail_at) {
+            (Obs::Panicked(p), _) => return Err(v(format!("panic:{}", kind_name(&op.kind)), format!("{op:?} panicked: {p}"))),
+            (Obs::Failed, 0) => return Err(v("harness:callback-error", format!("{op:?} reported a callback error although the callback never fails"))),
+            (Obs::Failed, _) => {
+                m.failed = true;
+                "call failed at the injected callback error".into()
+            }
+            _ => match op.kind {
+                Kind::Create { n, var } => {
+                    m.created.insert(n);
+                    for (k, x) in create_variant(&self.focus, n, var) {
+                        m.write(k, Some(x));
+                    }
+                    "create_node".into()
+                }
+                Kind::Get(k) => {
+                    m.check_get(&k, &obs, "")?;
+                    m.cached.insert(k);
+                    if m.current(&k).is_some() { "get:present" } else { "get:absent" }.into()
+                }
+                Kind::Set(k, x) => {
+                    m.write(k, Some(x));
+                    "set".into()
+                }
+                Kind::Remove(k) => {
+                    m.check_get(&k, &obs, "remove:returned-")?;
+                    let was = m.current(&k).is_some();
+                    m.write(k, None);
+                    if was { "remove:present" } else { "remove:absent" }.into()
+                }
+                Kind::ScanKeys { n, p, limit } => {
+                    m.check_scan_keys(n, p, limit, &obs, "")?;
+                    "scan_keys".into()
+                }
+                Kind::ScanSorted { n, limit } => {
+                    m.check_scan_sorted(n, limit, &obs, "")?;
+                    "scan_sorted".into()
+                }
+                Kind::Drain { n, p, limit } => {
+                    let got = m.check_apply_drain(n, p, limit, &obs, "")?;
+                    if got == limit as usize { "drain:limit-reached" } else { "drain:partition-exhausted" }.into()
+                }
+                Kind::ForceWrite(k) => {
+                    let e = (m.current(&k), m.written.contains(&k));
+                    m.fw.insert(k, e);
+                    "force_write".into()
+                }
+                Kind::Revert => {
+                    *m = m.reverted();
+                    "revert".into()
+                }
+            },
+        };
+        let class = if op.fail_at != 0 && !st.model.failed { format!("{class} (fewer callbacks than the injection point)") } else { class };
+        Ok(class)
+    }
+}
+
+impl Machine for TrackMachine {
+    type Op = Op;
+    type St = St;
+
+    fn init(&self) -> St {
+        St { track: Track::new(&self.base.db), model: Model::new(self.base), hist: vec![] }
+    }
+
+    fn ops(&self, st: &St, _depth: usize) -> Vec<Op> {
+        let m = &st.model;
+        let ok = |kind| Op { kind, fail_at: 0 };
+        if m.failed {
+            return vec![ok(Kind::Revert)];
+        }
+        let mut ops = vec![];
+        let mut failing = vec![];
+        let mut nodes: Vec<u8> = self.focus.iter().map(|f| f.0).collect();
+        nodes.dedup();
+        for n in nodes {
+            if !m.node_exists(n) {
+                for var in 0..3u8 {
+                    ops.push(ok(Kind::Create { n, var }));
+                }
+                failing.push((Kind::Create { n, var: 2 }, 2));
+            }
+        }
+        for (n, p) in self.focus.iter().copied().filter(|(n, _)| m.node_exists(*n)) {
+            for k in 0..3u8 {
+                let key = (n, p, k);
+                ops.push(ok(Kind::Get(key)));
+                ops.push(ok(Kind::Set(key, 1)));
+                ops.push(ok(Kind::Set(key, 2)));
+                ops.push(ok(Kind::Remove(key)));
+                failing.push((Kind::Get(key), 2));
+                failing.push((Kind::Set(key, 2), 1));
+                failing.push((Kind::Remove(key), 3));
+                // precondition of force_write (what close_substate guarantees): the substate was opened, i.e. it
+                // is in the cache; and the engine only force-writes substates of nodes that pre-exist
+                // (FORCE_WRITE is combined with UNMODIFIED_BASE, refused on substates of new nodes)
+                if m.cached.contains(&key) && self.base.has_node(n) {
+                    ops.push(ok(Kind::ForceWrite(key)));
+                }
+            }
+            for limit in 1..=3u8 {
+                ops.push(ok(Kind::Drain { n, p, limit }));
+            }
+            failing.push((Kind::Drain { n, p, limit: 3 }, 3));
+            failing.push((Kind::Drain { n, p, limit: 1 }, 1));
+            failing.push((Kind::ScanKeys { n, p, limit: 3 }, 2));
+            if p == SORTED {
+                failing.push((Kind::ScanSorted { n, limit: 3 }, 2));
+            }
+        }
+        if !m.reverted {
+            ops.push(ok(Kind::Revert));
+        }
+        if self.failing && !m.reverted {
+            for (kind, max_k) in failing {
+                for k in 1..=max_k {
+                    ops.push(Op { kind, fail_at: k });
+                }
+            }
+        }
+        ops
+    }
+
+    fn step(&self, st: &mut St, op: &Op) -> Result<String, V> {
+        let after_revert = st.model.reverted;
+        match self.step_inner(st, op) {
+            Err((k, w)) if after_revert && !k.starts_with("harness:") => {
+                self.post_revert(&k, w, &st.hist, "");
+                st.model.diverged = true;
+                Ok("post-revert continuation disagrees with the overlay (informational, not explored further)".into())
+            }
+            r => r,
+        }
+    }
+
+    fn terminal(&self, st: &St) -> bool {
+        st.model.diverged
+    }
+
+    /// canonical `TrackedSubstates` of the finalised copy (`range_read` dropped) + canonical `TrackedSubstates`
+    /// of the reverted copy (this exposes the private force-write table) + the reference model's bookkeeping
+    /// (adding model state can only split states, never merge different ones)
+    fn fingerprint(&self, st: &St) -> Vec<u8> {
+        // (computed here and not in `step`, so that replays of a history do not repeat the look-ahead)
+        let mut out = self.probes(&st.hist, &st.model);
+        out.extend(Self::model_fp(&st.model));
+        mc_core::fp128(&out)
+    }
+}
+
+// ------------------------------------------------------------------------------------------------
+// driver
+// ------------------------------------------------------------------------------------------------
+
+struct Config {
+    base: usize,
+    focus: Vec<(u8, u8)>,
+    depth: usize,
+    failing: bool,
+}
+
+fn focus_name(f: &[(u8, u8)]) -> String {
+    f.iter().map(|(n, p)| format!("N{}.{}", n + 1, if *p == MAP { "map" } else { "sorted" })).collect::<Vec<_>>().join("+")
+}
+
+pub fn run(ctx: Ctx) -> ! {
+    // the map partition must have a database order that differs from the logical order (built-in premise)
+    if db_order(MAP) == [0, 1, 2] || db_order(SORTED)[0] != 0 {
+        mc_core::machinery_error(&format!("C12: key choice does not scramble the order: map {:?} sorted {:?}", db_order(MAP), db_order(SORTED)));
+    }
+    if ctx.replay.is_some() {
+        replay(ctx);
+    }
+    let all: Vec<(u8, u8)> = vec![(0, MAP), (0, SORTED), (1, MAP), (1, SORTED)];
+    let (d_single, d_node, d_full) = ctx.pick((4, 3, 2), (5, 4, 3));
+    let mut configs = vec![];
+    for b in 0..4 {
+        for f in [vec![(0, MAP)], vec![(0, SORTED)]] {
+            configs.push(Config { base: b, focus: f, depth: d_single, failing: true });
+        }
+        configs.push(Config { base: b, focus: vec![(0, MAP), (0, SORTED)], depth: d_node, failing: true });
+        configs.push(Config { base: b, focus: all.clone(), depth: d_full, failing: true });
+    }
+    // the second node of B3 has its own content; the created second node of the other bases
+    for f in [vec![(1, MAP)], vec![(1, SORTED)]] {
+        configs.push(Config { base: 3, focus: f.clone(), depth: d_single, failing: true });
+        configs.push(Config { base: 1, focus: f, depth: d_single, failing: true });
+    }
+    let wall_cap = ctx.pick(50.0, 1100.0);
+    let mut total = BfsStats::default();
+    let mut per_config = vec![];
+    let mut exhaustive = true;
+    let mut sweeps = 0u64;
+    let mut post_revert: Option<(usize, String, String)> = None;
+    for c in &configs {
+        let base = &bases()[c.base];
+        let m = TrackMachine { base, focus: c.focus.clone(), failing: c.failing, side: Side::default() };
+        let tag = format!("{}|{}", base.name, focus_name(&c.focus));
+        let left = (wall_cap - ctx.elapsed_s()).max(1.0);
+        let s = bfs_chunked(&ctx, &m, &tag, c.depth, 5_000_000, left, 4_000);
+        for (key, (_, _, what, hist)) in m.side.violations.into_inner().unwrap() {
+            ctx.violation(key, what, json!({"base": tag, "history": hist}));
+        }
+        for (l, n) in m.side.counters.into_inner().unwrap() {
+            ctx.class(&l, n);
+        }
+        for (l, n) in m.side.info.into_inner().unwrap() {
+            ctx.info(&l, n);
+        }
+        sweeps += m.side.sweeps.load(Ordering::Relaxed);
+        if let Some((len, hist, what)) = m.side.post_revert_example.into_inner().unwrap() {
+            let cand = (len, format!("base {tag}: {hist}"), what);
+            if post_revert.as_ref().map_or(true, |old: &(usize, String, String)| (cand.0, &cand.1) < (old.0, &old.1)) {
+                post_revert = Some(cand);
+            }
+        }
+        println!("C12 {tag} depth {}/{} states {} transitions {} capped {} ({:.1}s)", s.depth_completed, c.depth, s.states, s.transitions, s.capped, ctx.elapsed_s());
+        exhaustive &= !s.capped;
+        per_config.push(json!({"base": base.name, "focus": focus_name(&c.focus), "depth": c.depth, "depth_completed": s.depth_completed, "states": s.states, "transitions": s.transitions, "capped": s.capped, "alphabet_max": s.alphabet_max}));
+        total.add(&s);
+    }
+    let mut cov = total.coverage();
+    cov.insert("configurations".into(), json!(per_config));
+    cov.insert("lookahead_probe_rounds".into(), json!(sweeps));
+    cov.insert(
+        "bounds".into(),
+        json!(format!(
+            "4 base databases x focus sets (one partition: depth {d_single}; both partitions of node 1: depth {d_node}; 2 nodes x 2 partitions: depth {d_full}); 3 keys per partition, written values {{1,2}}, base value 9; alphabet = create_node (3 contents), get, set, remove, drain(limit 1..3), force_write, revert (once) + the same calls with the IO callback failing at its k-th invocation (k<=3, then only revert); every reached state additionally gets finalize, revert+reads+finalize and a scan/get/drain sweep (limits 0..4) on replayed copies"
+        )),
+    );
+    ctx.note(DEVIATIONS);
+    if let Some((_, hist, what)) = &post_revert {
+        ctx.note(format!(
+            "INFORMATIONAL (outside the statement: the cache is used after revert_non_force_write_changes): smallest history whose continuation after the revert disagrees with 'database + force-written substates': {hist} -> {what}"
+        ));
+        println!("INFO post-revert example: {hist} -> {what}");
+    }
+    let nontrivial = total.states;
+    ctx.finish(
+        Level::ModelChecking,
+        "distinct states (canonical TrackedSubstates of the finalised and of the reverted copy + model bookkeeping) summed over configurations",
+        nontrivial,
+        exhaustive,
+        cov,
+        &[
+            "interface preconditions respected: create_node only for nodes that neither the base nor the transaction has; no operation on a node that does not exist; scan_sorted only on the sorted partition; key type parameter matches the partition; delete_partition and transient substates excluded (C07)",
+            "force_write only on cached substates of pre-existing nodes (close_substate after open; the engine pairs FORCE_WRITE with UNMODIFIED_BASE which is refused on new nodes)",
+            "revert at most once per history; after a call that returned the callback's error the only continuation is revert (what the engine does)",
+            "scan_keys / drain may return any subset of the right size; only scan_sorted has a prescribed order (database key order computed with the real SpreadPrefixKeyMapper, which C16 checks)",
+            "state updates may contain entries only for substates the transaction wrote (set/remove/drain/create), including writes that restore the base value; the new-node set and get_tracked_substate_info are informational",
+            "values are SBOR u8 without owned nodes or references",
+        ],
+    )
+}
+
+const DEVIATIONS: &str = "Deviations from DESIGN.md C12: (1) finalize and revert;finalize are not terminal ops of the alphabet but are run on a replayed copy of EVERY reached state, together with an observer sweep (scan_keys/scan_sorted limits 0..4, get of every key, drain) — the explored alphabet keeps only cache-changing operations; (2) revert is additionally explored as a non-terminal op (reads/writes after revert, as the engine's fee finalisation does); (3) instead of one alphabet over 2 nodes x 2 partitions to depth 4/6, focus sets are explored (single partition deeper, full key space shallower) because Track operations on different partitions interact only through the per-node is_new flag and revert; (4) the error environment ends in revert (the statement says nothing about the cache after a failed call other than through revert).";
+
+fn parse_key(s: &str) -> Option<Key> {
+    // "(0, 1, 2)"
+    let i = s.find('(')?;
+    let j = s[i..].find(')')? + i;
+    let v: Vec<u8> = s[i + 1..j].split(',').filter_map(|x| x.trim().parse().ok()).collect();
+    if v.len() == 3 {
+        Some((v[0], v[1], v[2]))
+    } else {
+        None
+    }
+}
+
+fn parse_op(s: &str) -> Option<Op> {
+    // Debug form: Op { kind: Set((0, 0, 1), 2), fail_at: 0 }
+    let num = |key: &str| -> Option<u8> {
+        let i = s.find(key)? + key.len();
+        let rest = &s[i..];
+        let end = rest.find(|c: char| !c.is_ascii_digit()).unwrap_or(rest.len());
+        rest[..end].parse().ok()
+    };
+    let fail_at = num("fail_at: ")?;
+    let body = &s[s.find("kind: ")? + 6..];
+    let kind = if body.starts_with("Create") {
+        Kind::Create { n: num("n: ")?, var: num("var: ")? }
+    } else if body.starts_with("Get") {
+        Kind::Get(parse_key(body)?)
+    } else if body.starts_with("Set") {
+        let k = parse_key(body)?;
+        let after = &body[body.find(')')? + 1..];
+        let x: u8 = after.trim_start_matches(',').trim().split(')').next()?.trim().parse().ok()?;
+        Kind::Set(k, x)
+    } else if body.starts_with("Remove") {
+        Kind::Remove(parse_key(body)?)
+    } else if body.starts_with("ScanKeys") {
+        Kind::ScanKeys { n: num("n: ")?, p: num("p: ")?, limit: num("limit: ")? }
+    } else if body.starts_with("Drain") {
+        Kind::Drain { n: num("n: ")?, p: num("p: ")?, limit: num("limit: ")? }
+    } else if body.starts_with("ScanSorted") {
+        Kind::ScanSorted { n: num("n: ")?, limit: num("limit: ")? }
+    } else if body.starts_with("ForceWrite") {
+        Kind::ForceWrite(parse_key(body)?)
+    } else if body.starts_with("Revert") {
+        Kind::Revert
+    } else {
+        return None;
+    };
+    Some(Op { kind, fail_at })
+}
+
+fn replay(ctx: Ctx) -> ! {
+    let case = ctx.read_replay_case().unwrap_or_else(|| mc_core::machinery_error("no replay case"));
+    let tag = case.get("base").and_then(|b| b.as_str()).unwrap_or("").to_string();
+    let (bname, fname) = tag.split_once('|').unwrap_or((&tag, ""));
+    let base = bases().iter().find(|b| b.name == bname).unwrap_or_else(|| mc_core::machinery_error(&format!("unknown base {bname}")));
+    let mut focus = vec![];
+    for part in fname.split('+') {
+        let n = if part.starts_with("N2") { 1 } else { 0 };
+        let p = if part.ends_with("sorted") { SORTED } else { MAP };
+        focus.push((n, p));
+    }
+    let hist: Vec<String> = case.get("history").and_then(|h| h.as_array()).map(|a| a.iter().filter_map(|x| x.as_str().map(|s| s.to_string())).collect()).unwrap_or_default();
+    let m = TrackMachine { base, focus, failing: true, side: Side::default() };
+    let mut st = m.init();
+    for (i, s) in hist.iter().enumerate() {
+        if s.starts_with('<') {
+            println!("step {i}: {s} (look-ahead copy, executed after every step)");
+            continue;
+        }
+        let op = parse_op(s).unwrap_or_else(|| mc_core::machinery_error(&format!("cannot parse op {s}")));
+        match mc_core::catch(|| m.step(&mut st, &op)) {
+            Ok(Ok(class)) => println!("step {i}: {op:?} -> {class}"),
+            Ok(Err((k, w))) => {
+                println!("step {i}: {op:?} -> VIOLATION {k}: {w}");
+                ctx.violation(k, w, case.clone());
+                break;
+            }
+            Err(p) => {
+                println!("step {i}: {op:?} -> harness panic {p}");
+                ctx.violation(format!("panic@{}", mc_core::last_panic_location()), p, case.clone());
+                break;
+            }
+        }
+    }
+    if let Some((_, hist, what)) = m.side.post_revert_example.lock().unwrap().clone() {
+        println!("post-revert (informational): {hist} -> {what}");
+    }
+    for (key, (_, _, what, hist)) in m.side.violations.into_inner().unwrap() {
+        println!("look-ahead VIOLATION {key}: {what}");
+        ctx.violation(key, what, json!({"base": tag, "history": hist}));
+    }
+    ctx.finish(Level::ModelChecking, "replay", 0, false, serde_json::Map::new(), &[])
 }
